@@ -99,6 +99,12 @@ func c02Units(tier string) []hx.Unit {
 	scns = append(scns, c02Scn{name: "S5/periodic/dur3/run@T+1", periodic: true, jobDur: 3 * sec, T: T, horizon: 3*T + 5*sec, actions: []c02Action{{at: T + sec, kind: "run", name: "J"}}})
 	scns = append(scns, c02Scn{name: "S5/periodic/dur3/cancel@T+1", periodic: true, jobDur: 3 * sec, T: T, horizon: 3*T + 5*sec, actions: []c02Action{{at: T + sec, kind: "cancel", name: "J"}}, reschedAt: 2*T + sec})
 	scns = append(scns, c02Scn{name: "S5/periodic/cancel@T/2", periodic: true, T: T, horizon: 3*T + 2*sec, actions: []c02Action{{at: T / 2, kind: "cancel", name: "J"}}})
+	// a name cancelled and scheduled again at the same instant (the cancelled job's goroutine may deal with its cancel
+	// signal before or after the new entry exists): the new job is pending like any other - listed, cancellable
+	scns = append(scns, c02Scn{name: "S6c/cancel@-2,sched@-2,exists@-1", T: T, horizon: T + 12*sec,
+		actions: []c02Action{{at: T - 2*sec, kind: "cancel", name: "J"}, {at: T - 2*sec, kind: "sched6", name: "J"}, {at: T - sec, kind: "exists", name: "J"}}})
+	scns = append(scns, c02Scn{name: "S6c/cancel@-2,sched@-2,cancel@-1", T: T, horizon: T + 12*sec,
+		actions: []c02Action{{at: T - 2*sec, kind: "cancel", name: "J"}, {at: T - 2*sec, kind: "sched6", name: "J"}, {at: T - sec, kind: "cancel2", name: "J"}}})
 	// cancelling by the other two entry points while an instance of the periodic job is running / while an early run is under way
 	scns = append(scns, c02Scn{name: "S5/periodic/dur3/cancelif@T+1", periodic: true, jobDur: 3 * sec, T: T, horizon: 3*T + 5*sec, actions: []c02Action{{at: T + sec, kind: "cancelif", name: "J"}}, reschedAt: 2*T + sec})
 	scns = append(scns, c02Scn{name: "S5/periodic/dur3/cancelall@T+1", periodic: true, jobDur: 3 * sec, T: T, horizon: 3*T + 5*sec, actions: []c02Action{{at: T + sec, kind: "cancelall", name: "J"}}, reschedAt: 2*T + sec})
@@ -386,6 +392,17 @@ func c02Check(sc *c02Scn, st *c02State, r *mc.Result) mc.Verdict {
 			case "sched6":
 				sched6 = a
 				if a.err != nil {
+					// scheduled at the very instant of a cancel request: it may have come first, when the name was still taken
+					early := false
+					for _, b := range st.acts {
+						if b.kind == "cancel" && b.at == a.at {
+							early = true
+						}
+					}
+					if early {
+						sched6 = nil
+						continue
+					}
 					return fail("name-not-reusable", "the name of a claimed, running one-off job cannot be scheduled again: "+a.err.Error())
 				}
 			case "exists":
